@@ -157,6 +157,8 @@ def run_corr(ctx, exe, model, harness_args, what):
         p = l.split(" ")
         if p[0] == "OK" and len(p) >= 5 and p[3] == "NOTFIXED":
             notfixed += 1
+            if ctx.prop != "C01":      # C02 re-uses this correspondence: the fixed point is C01's statement, not C02's
+                continue
             c = by_in.get(p[1])
             site = bytes.fromhex(p[4]).decode("latin1")
             ctx.failing_input(site, "second-generation-not-a-fixed-point", c[2] if c else p[1],
